@@ -14,4 +14,7 @@ ASSUME IOEnv.WHAT # "nm_cases" \/ Export("nm_cases", IF Quick THEN NMCases(10, {
 ASSUME IOEnv.WHAT # "split_layouts" \/ Export("split_layouts",
    IF Quick THEN SplitLayouts({210, 250, 260, 400}, {0, 300, 500}, {0, 1}, {"asc", "desc", "shuf"}, {100, 50, 30}, {0, 5, 50})
    ELSE SplitLayouts({150, 210, 249, 250, 251, 260, 400, 700}, {0, 100, 300, 500, 800}, {0, 1}, {"asc", "desc", "shuf"}, {100, 70, 50, 30, 10}, {0, 5, 50, 95, 100}))
+ASSUME IOEnv.WHAT # "tiesplit_layouts" \/ Export("tiesplit_layouts",
+   IF Quick THEN TieSplitLayouts({4, 8}, {240, 250, 260, 300}, {10, 20, 30}, {0, 5, 100})
+   ELSE TieSplitLayouts({3, 4, 6, 8}, {230, 240, 250, 260, 280, 300, 400}, {10, 20, 30, 50}, {0, 5, 50, 100}))
 =============================================================================
